@@ -947,7 +947,7 @@ def fresh_crosscheck(ctx, out, cases, n):
 
 def run(ctx, out, replay=None):
     quick = ctx.quick()
-    ngroups = 45 if quick else 420
+    ngroups = 45 if quick else 800
     out.rule = ("(history, probe) pairs: probe = netlist load + verdict / orthogon recognition of a hard module / die "
                 "decomposition (with fixed rectangles of a netlist) / allocation + refine, griddify, uniform depth / "
                 "SAT posting sequence / legaliser Model construction / Strop / objects built from default arguments; "
